@@ -1113,6 +1113,49 @@ int main(int argc, char** argv)
             }
         }
     }
+    else if (subject == "minblock")
+    { // C18: memory_stack / memory_arena constructed with min_block_size(n): the capacity is exactly n bytes, n bytes
+      // (less the two fences of a debug build) are served from the first block, and the arena's block has n usable bytes
+        using S = memory_stack<fixed_block_allocator<RegionAlloc>>;
+        using A = memory_arena<fixed_block_allocator<RegionAlloc>, true>;
+        const std::size_t fence = detail::debug_fence_size;
+        long              cases = 0;
+        for (std::size_t n = 1; n <= (nops >= 1000 ? 6000u : 1500u); n += (n < 80 ? 1 : 1 + g.below(37)))
+        {
+            {
+                S    s(S::min_block_size(n), RegionAlloc(region));
+                long up0 = region.n_alloc;
+                if (s.capacity_left() != n)
+                    oracle.fail(fmt("minblock stack n=%zu: capacity_left() of memory_stack(min_block_size(n)) is %zu", n, s.capacity_left()));
+                if (n > 2 * fence)
+                {
+                    void* p = s.try_allocate(n - 2 * fence, 1);
+                    if (!p)
+                        oracle.fail(fmt("minblock stack n=%zu: %zu bytes are not served from the first block", n, n - 2 * fence));
+                    else
+                    {
+                        std::memset(p, 0x5c, n - 2 * fence);
+                        if (s.capacity_left() != 0)
+                            oracle.fail(fmt("minblock stack n=%zu: capacity_left() is %zu after the block was used up", n, s.capacity_left()));
+                    }
+                }
+                if (region.n_alloc != up0)
+                    oracle.fail(fmt("minblock stack n=%zu: the stack grew", n));
+            }
+            {
+                A    a(A::min_block_size(n), RegionAlloc(region));
+                auto b = a.allocate_block();
+                if (b.size != n)
+                    oracle.fail(fmt("minblock arena n=%zu: the block of memory_arena(min_block_size(n)) has %zu usable bytes", n, b.size));
+                std::memset(b.memory, 0x5d, b.size);
+                a.deallocate_block();
+            }
+            region.take_events();
+            ++cases;
+        }
+        n_ops = cases;
+        n_ok = cases;
+    }
     else if (subject.rfind("arena-", 0) == 0)
     {
         bool fixed = subject.find("-fixed-") != std::string::npos, cached = subject.find("uncached") == std::string::npos;
